@@ -125,7 +125,7 @@ for _n, _c in [('time_ts_plus_dur', 't + d is the chrono result or an error when
                     claim=_c, vars=None)
 
 ALL_UNITS = ['value_arith', 'value_cmp', 'value_coll', 'macros', 'preresolved', 'interp', 'interp_vm_g0', 'interp_vm_g1', 'interp_vm_g2', 'interp_vm_g3',
-             'interp_vm_g4', 'interp_vm_g5', 'interp_vm_g6', 'interp_vm_g7', 'builtins', 'wiring', 'parser', 'json', 'compprog', 'parser_expr', 'parser_unary', 'parser_match', 'scanner', 'tokenizer', 'parser_member', 'parser_matchx', 'parser_top', 'balance', 'semantics', 'bindctx', 'strfuncs', 'uomconv']
+             'interp_vm_g4', 'interp_vm_g5', 'interp_vm_g6', 'interp_vm_g7', 'builtins', 'wiring', 'parser', 'json', 'compprog', 'parser_expr', 'parser_unary', 'parser_match', 'scanner', 'tokenizer', 'parser_member', 'parser_matchx', 'parser_top', 'balance', 'semantics', 'bindctx', 'strfuncs', 'uomconv', 'sortfn']
 
 PROPS = {
     'C02': dict(
@@ -223,11 +223,12 @@ PROPS = {
         assumptions=[],
     ),
     'C04': dict(
-        units=['value_cmp', 'value_arith', 'builtins'],
+        units=['value_cmp', 'value_arith', 'builtins', 'sortfn'],
         not_covered=['the laws of the double order (IEEE comparison is uninterpreted: only that doubles are compared lhs to rhs is pinned)',
                      'list and map equality ARE under contract for containers whose element / value pairs are decided by the scalar rules (lists: different lengths are never equal, equal exactly when every pair at the same position is; maps: always a bool, different key sets are never equal, equal exactly when every value pair under the same key is); for containers holding doubles, containers, dyn objects or failures only "bool or error" (maps: bool); std::iter::zip and HashMap::into_iter are materialized stand-ins (zip: pairs of equal indices in order up to the shorter; into_iter: every entry once in an unspecified order), HashMap clone / remove / is_empty are trampolines with the assumed std behaviour',
-                     'laws of the string/bytes/timestamp/duration orders are std\'s and chrono\'s Ord (assumed)'],
-        assumptions=['sort: the comparator is ord; that slice::sort_by with a total order returns an ordered permutation is std\'s contract (not under contract here)'],
+                     'laws of the string/bytes/timestamp/duration orders are std\'s and chrono\'s Ord (assumed)',
+                     'sort: that the result is an ORDERED PERMUTATION is not proved (it needs ord as a function and its transitivity, which hold only for mutually comparable elements); proved: no panic, the length, the comparison (ord of the left against the right element, failures read as less), the direction and stability of every merge step'],
+        assumptions=[],
     ),
     'C05': dict(
         units=['value_cmp', 'value_arith', 'interp_vm_g0', 'interp_vm_g1', 'parser', 'parser_expr', 'parser_match', 'parser_matchx', 'balance', 'semantics', 'compprog', 'interp'],
